@@ -281,3 +281,24 @@ func VerifURLPrefixValidatorKinds() map[int]string {
 	}
 	return m
 }
+
+// VerifTextTrees returns the parse trees of text/template's association of t
+// (name -> tree, nil trees included), i.e. what text/template would execute.
+func VerifTextTrees(t *Template) map[string]*parse.Tree {
+	m := map[string]*parse.Tree{}
+	if t == nil || t.text == nil {
+		return m
+	}
+	for _, x := range t.text.Templates() {
+		m[x.Name()] = x.Tree
+	}
+	return m
+}
+
+// VerifOwnTextTree returns the tree of t's own text template (which need not be registered).
+func VerifOwnTextTree(t *Template) *parse.Tree {
+	if t == nil || t.text == nil {
+		return nil
+	}
+	return t.text.Tree
+}
